@@ -428,6 +428,28 @@ func (x *vc) applyContract(fr *frame, st *state, fc *funcContract, callee *ssa.F
 	for _, out := range copyOuts {
 		out()
 	}
+	// what a callee returns cannot be one of the caller's local objects (no callee can reach them: localobj.go).
+	// Skipped when the contract declares `owned` locals (call results that are then treated as local objects).
+	if fr.top && x.hasLocal && x.topFC != nil && len(x.topFC.owned) == 0 {
+		for _, c := range append([]Val{res}, res.Tuple...) {
+			if c.T == "" || c.Typ == nil {
+				continue
+			}
+			switch x.srt.sortOf(c.Typ) {
+			case sRV:
+				x.assume(st.guard, not(app("localobj", app("ival", app("rv_iface", c.T)))))
+			case sIface:
+				x.assume(st.guard, not(app("localobj", app("ival", c.T))))
+			case sSlice:
+				x.assume(st.guard, not(app("localobj", app("sl_arr", c.T))))
+			case sInt:
+				switch c.Typ.Underlying().(type) {
+				case *types.Pointer, *types.Map:
+					x.assume(st.guard, not(app("localobj", c.T)))
+				}
+			}
+		}
+	}
 	// results of the k-th call to a callee, for use in the caller's postconditions: ret(callee#k, i)
 	if fr.top || len(x.stack) <= 3 {
 		if x.callRes == nil {
@@ -830,6 +852,23 @@ func (x *vc) stdlibModel(fr *frame, st *state, callee *ssa.Function, args []Val,
 		return r, true
 	case "strconv.Itoa", "strconv.FormatInt", "strconv.FormatFloat", "strconv.Quote", "fmt.Sprintf", "fmt.Sprint", "fmt.Sprintln":
 		return x.freshVal("fmt", resT, st), true
+	case "(time.Time).Nanosecond", "(time.Time).Hour", "(time.Time).Minute", "(time.Time).Second":
+		// documented ranges of the clock fields
+		r := x.freshResult(st, resT, "timefield")
+		hi := map[string]string{"(time.Time).Nanosecond": "999999999", "(time.Time).Hour": "23", "(time.Time).Minute": "59", "(time.Time).Second": "59"}[name]
+		x.trusted["package time: clock fields lie in their documented ranges"] = true
+		x.assume(st.guard, and(app("<=", "0", r.T), app("<=", r.T, hi)))
+		return r, true
+	case "(time.Time).UnixNano":
+		// documented: "The result is undefined if the Unix time in nanoseconds cannot be represented by an int64 (a date
+		// before the year 1678 or after 2262)". The precondition is an obligation: a caller has to know its instant is in
+		// that range (time_nano_ok is only ever established by an explicit precondition of the caller).
+		if len(args) == 1 && args[0].T != "" {
+			ts := x.srt.sortOf(args[0].Typ)
+			x.needDecl(fmt.Sprintf("(declare-fun time_nano_ok (%s) Bool)", ts))
+			x.check(st, "lib:UnixNano", "", app("time_nano_ok", args[0].T), pos, "time.Time.UnixNano: the instant must lie between the years 1678 and 2262 (the result is undefined otherwise)")
+		}
+		return x.freshResult(st, resT, "unixnano"), true
 	case "strconv.Atoi":
 		// a decimal numeral of k characters (sign included) has magnitude below 10^k
 		r := x.freshResult(st, resT, "atoi")
